@@ -1,12 +1,18 @@
 # Check registry used by vcheck: where each property's harness lives and how it is built.
-GRPCGCP_INSTR = [{'pkg': 'grpcgcp', 'access': False, 'vgrpc': 'gcp_multiendpoint.go'}, {'pkg': 'grpcgcp/multiendpoint', 'access': False}]
 
 def me(rule):
     return dict(module='grpcgcp', pkg='grpcgcp/multiendpoint', harness='multiendpoint',
                 instrument=[{'pkg': 'grpcgcp/multiendpoint'}], level='model_checking',
                 workers={'quick': 16, 'thorough': 16}, deadline_s={'quick': 240, 'thorough': 1500}, rule=rule)
 
+def pool(rule):
+    return dict(module='grpcgcp', pkg='grpcgcp', harness='grpcgcp',
+                instrument=[{'pkg': 'grpcgcp'}, {'pkg': 'grpcgcp/multiendpoint'}], level='model_checking',
+                workers={'quick': 16, 'thorough': 16}, deadline_s={'quick': 240, 'thorough': 1500}, rule=rule)
+
 CHECKS = {
     'C13': me('explicit-state BFS over histories of SetEndpointAvailability/SetEndpoints/clock advances on the real multiEndpoint; a state is non-trivial if an availability status or the list changed on the way (counted by distinct canonical state key)'),
     'C14': me('same exploration as C13 with the window/delay/convergence monitors and the timer-exhaustion closure (C14.L1) evaluated from every reached state'),
 }
+for p in ['C01', 'C02', 'C03', 'C04', 'C05', 'C06', 'C07', 'C08', 'C09', 'C20']:
+    CHECKS[p] = pool('explicit-state BFS over histories of balancer callbacks, picks, completions and clock advances on the real gcpBalancer over a fake ClientConn; distinct canonical state keys in which the premise of a rule of this property was exercised')
